@@ -363,7 +363,7 @@ def apply_units(dest, units, only_harnesses=None):
         for need in u.needs:
             if need not in src:
                 raise Undecided(f"lost anchor: <<{need}>> not found in {u.file} (unit {u.name})")
-        mod = f"\n\n#[cfg(kani)]\n#[allow(unused, non_snake_case, dead_code)]\nmod {u.modname} {{\n    use super::*;\n{u.body}\n}}\n"
+        mod = f"\n\n#[cfg(kani)]\n#[allow(unused, non_snake_case, dead_code)]\npub(crate) mod {u.modname} {{\n    use super::*;\n{u.body}\n}}\n"
         open(p, "w").write(src + mod)
         report["modules"].append({"unit": u.name, "file": u.file})
     return report
